@@ -30,6 +30,8 @@ func main() {
 	dump := flag.String("dump", "", "debug: rel/pkg:Func — print call keys and SSA of a function")
 	factsOf := flag.String("facts", "", "debug (with -dump): print branch facts at calls to this callee key")
 	variant := flag.String("variant", "", "internal (thorough tier): apply this unified diff in memory before analysing; evidence goes to a scratch directory")
+	writeBase := flag.Bool("write-baseline", false, "maintenance: write baseline_funcs.txt (function inventory of the reference tree) into -verif")
+	dumpView := flag.String("view", "", "debug (with -dump): inline-new | inline-pkg")
 	flag.Parse()
 	if *variant != "" {
 		ov, err := buildOverlay(*repo, *variant)
@@ -46,6 +48,9 @@ func main() {
 		variantTmp = tmp
 		if b, err := os.ReadFile(*verif + "/known_findings.json"); err == nil {
 			os.WriteFile(tmp+"/known_findings.json", b, 0o644)
+		}
+		if b, err := os.ReadFile(*verif + "/baseline_funcs.txt"); err == nil {
+			os.WriteFile(tmp+"/baseline_funcs.txt", b, 0o644)
 		}
 		*verif = tmp
 		*tier = "quick"
@@ -79,7 +84,7 @@ func main() {
 		sort.Strings(ids)
 	}
 	for _, id := range ids {
-		if *dump != "" {
+		if *dump != "" || *writeBase {
 			break
 		}
 		if registry[id] == nil {
@@ -94,9 +99,25 @@ func main() {
 		os.Exit(2)
 	}
 	loadS := time.Since(t0).Seconds()
+	if *writeBase {
+		if err := writeBaseline(c, *verif); err != nil {
+			fmt.Println("MACHINERY-FAILURE:", err)
+			os.Exit(2)
+		}
+		return
+	}
 	if *dump != "" {
 		i := strings.LastIndex(*dump, ":")
+		loadBaseline(*verif)
+		c.view = *dumpView
+		c.anchorSeen = map[*ssa.Function]bool{}
 		f := c.FuncOpt((*dump)[:i], (*dump)[i+1:])
+		for _, n := range c.Notes {
+			fmt.Println("note:", n)
+		}
+		for _, n := range c.viewNotes {
+			fmt.Println("view:", n)
+		}
 		if f == nil {
 			fmt.Println("not found")
 			os.Exit(2)
@@ -143,13 +164,14 @@ func runOne(c *Ctx, id, verif string, seed int, t0 time.Time, loadS float64) (co
 	c.floors = map[string]int{}
 	c.funcsSeen = map[*ssa.Function]bool{}
 	extra := map[string]interface{}{"load_s": loadS}
+	loadBaseline(verifDirGlobal)
 	func() {
 		defer func() {
 			if r := recover(); r != nil {
 				c.Machinef("analysis panic: %v\n%s", r, debug.Stack())
 			}
 		}()
-		registry[id](c)
+		evaluate(c, id)
 		if c.Tier == "thorough" {
 			runThorough(c, id, extra)
 		}
